@@ -158,6 +158,9 @@ async fn handle_http_proxy_connection(
 
     let _ = tokio::join!(to_client, to_proxy);
 
+    // The request is finished: the session goes back to the pool so that the next request reuses it
+    client.release_session(session).await;
+
     tracing::debug!(
         "[HTTP] Connection to {}:{} closed (stream {})",
         request.host,
